@@ -64,6 +64,9 @@ func c13values() []c13value {
 		mk("tstr-leading-space", " a/b", refcbor.NTstr(" a/b")),
 		mk("tstr-trailing-space", "a/b ", refcbor.NTstr("a/b ")),
 		mk("tstr-empty", "", refcbor.NTstr("")),
+		mk("tstr-with-parameter", "a/b;c=d", refcbor.NTstr("a/b;c=d")),
+		mk("tstr-with-parameter-trailing-space", "a/b; c=d ", refcbor.NTstr("a/b; c=d ")),
+		mk("tstr-with-parameter-leading-space", " a/b;c=d", refcbor.NTstr(" a/b;c=d")),
 		mk("bstr", []byte{1, 2}, refcbor.NBstr([]byte{1, 2})),
 		mk("bstr-empty", []byte{}, refcbor.NBstr([]byte{})),
 		mk("array-of-labels", []any{int64(4)}, refcbor.NArr(refcbor.NInt(4))),
